@@ -123,17 +123,19 @@ class UMNDirHandler(DirHandler):
             fileentriesdict[entry.selector] = entry
 
         for linkentry in self.linkentries:
-            if not linkentry.getneedsmerge():
-                self.fileentries.append(linkentry)
-                continue
-            if linkentry.selector in fileentriesdict:
+            if linkentry.getneedsmerge() and linkentry.selector in fileentriesdict:
                 if linkentry.gettype() == "X":
                     # It's special code to hide something.
                     self.fileentries.remove(fileentriesdict[linkentry.selector])
                 else:
                     self.mergeentries(fileentriesdict[linkentry.selector], linkentry)
-            else:
-                self.fileentries.append(linkentry)
+                continue
+            # A new entry.  A block that only hides a file which is not
+            # listed anyway has nothing to do, and an entry without a title
+            # cannot be rendered.
+            if linkentry.gettype() in ("X", "-") or linkentry.getname() is None:
+                continue
+            self.fileentries.append(linkentry)
 
     def mergeentries(self, old: GopherEntry, new: GopherEntry) -> None:
         """Takes the set fields from new and modifies old to have their
